@@ -9,7 +9,7 @@ props = {json.loads(l)['id']: json.loads(l) for l in open(os.path.join(V, 'prope
 
 # which seeds were caught the first time the check met them ("blind") and which only after the
 # check was strengthened in response to the miss (kept by hand: see DESIGN.md section 12)
-AFTER = {'C08-6', 'C20-6', 'C07-6', 'C18-5', 'C18-6', 'C17-6', 'C06-6', 'C02-6', 'C13-4', 'C15-3', 'C12-5', 'C11-6', 'C03-5', 'C09-3', 'C05-3', 'C11-4', 'C05-1', 'C05-2', 'C18-4', 'C17-4', 'C10-4', 'C01-4', 'C20-3', 'C19-4', 'C01-1', 'C07-4', 'C03-4', 'C08-4', 'C03-1', 'C03-2', 'C04-2', 'C10-2', 'C17-2', 'C19-1', 'C13-1', 'C13-2', 'C15-2'}
+AFTER = {'C01-8', 'C03-8', 'C04-8', 'C11-8', 'C12-8', 'C13-6', 'C14-8', 'C17-8', 'C19-8', 'C08-6', 'C20-6', 'C07-6', 'C18-5', 'C18-6', 'C17-6', 'C06-6', 'C02-6', 'C13-4', 'C15-3', 'C12-5', 'C11-6', 'C03-5', 'C09-3', 'C05-3', 'C11-4', 'C05-1', 'C05-2', 'C18-4', 'C17-4', 'C10-4', 'C01-4', 'C20-3', 'C19-4', 'C01-1', 'C07-4', 'C03-4', 'C08-4', 'C03-1', 'C03-2', 'C04-2', 'C10-2', 'C17-2', 'C19-1', 'C13-1', 'C13-2', 'C15-2'}
 
 def seeds_for(pid):
     out = []
@@ -50,12 +50,23 @@ for d in sorted(glob.glob(os.path.join(V, 'seeded', 'C*-*'))):
     rows12.append(f"| {m['id']} | {m['change']} | {by} | {rp} | {when} |")
 rows12.append('')
 rows12.append(f'{n} of {tot} seeded changes are caught on the current tree.')
-def rnd(i): return (int(i.split('-')[1]) + 1) // 2
-for r in (1, 2, 3):
-    ids = [json.load(open(os.path.join(d, 'meta.json')))['id'] for d in sorted(glob.glob(os.path.join(V, 'seeded', 'C*-*')))]
-    ids = [i for i in ids if rnd(i) == r]
-    first = [i for i in ids if i not in AFTER]
-    rows12.append(f'Round {r}: {len(ids)} seeds, {len(first)} caught by the checks as they stood when the seed arrived, {len(ids) - len(first)} only after a contract was added or sharpened in response ({", ".join(sorted(set(ids) - set(first)))}).')
+metas = [json.load(open(os.path.join(d, 'meta.json'))) for d in sorted(glob.glob(os.path.join(V, 'seeded', 'C*-*')))]
+def rnd(m):
+    pb = m.get('produced_by', '')
+    if 'canary' in pb:
+        return 0
+    if 'round 4' in pb:
+        return 4
+    return (int(m['id'].split('-')[1]) + 1) // 2
+for r in (1, 2, 3, 4):
+    ms = [m for m in metas if rnd(m) == r]
+    ids = [m['id'] for m in ms]
+    missed = [m['id'] for m in ms if not m.get('detected_by')]
+    first = [i for i in ids if i not in AFTER and i not in missed]
+    after = sorted(set(ids) - set(first) - set(missed))
+    rows12.append(f'Round {r}: {len(ids)} seeds, {len(first)} caught by the checks as they stood when the seed arrived, {len(after)} only after a contract was added or sharpened in response ({", ".join(after)})' + (f', {len(missed)} not caught ({", ".join(missed)}: see the notes below the table)' if missed else '') + '.')
+can = [m['id'] for m in metas if rnd(m) == 0]
+rows12.append(f'Canaries (reverts of repaired defects, written by the author of the checks, not counted in the rounds): {", ".join(can)}.')
 
 p = os.path.join(V, 'DESIGN.md')
 s = open(p).read()
